@@ -426,7 +426,7 @@ class Site(interfaces.ObservableResource, PathCapable):
 
         remainder = [request.opt.uri_path[-1]]
         path = request.opt.uri_path[:-1]
-        while path:
+        while True:
             if path in self._subsites:
                 res = self._subsites[path]
                 if remainder == [""]:
@@ -435,9 +435,11 @@ class Site(interfaces.ObservableResource, PathCapable):
                 stripped = request.copy(uri_path=remainder)
                 stripped._original_request_path = original_request_path
                 return res, stripped
+            if not path:
+                # even a sub-site registered at the empty path was tried
+                raise KeyError()
             remainder.insert(0, path[-1])
             path = path[:-1]
-        raise KeyError()
 
     async def render(self, request):
         try:
@@ -491,8 +493,7 @@ class Site(interfaces.ObservableResource, PathCapable):
                 for link in resource.get_resources_as_linkheader().links:
                     links.append(
                         Link(
-                            "/"
-                            + "/".join(_quote_for_href(p) for p in path)
+                            "".join("/" + _quote_for_href(p) for p in path)
                             + link.href,
                             link.attr_pairs,
                         )
